@@ -222,7 +222,7 @@ func (fr *Frame) applyContract(site ssa.Instruction, fc *FuncContract, key strin
 	var res []T
 	for i := 0; i < sig.Results().Len(); i++ {
 		rt := sig.Results().At(i).Type()
-		r := ex.freshOfType(fmt.Sprintf("f%d_%s_r%d", fr.id, sanitize(name), i), rt, tTrue, nil)
+		r := ex.freshOfType(fmt.Sprintf("f%d_%s_%d_r%d", fr.id, sanitize(name), fr.callOrd[site], i), rt, tTrue, nil)
 		fr.markAllocated(r, rt, reach, st)
 		res = append(res, r)
 	}
@@ -337,7 +337,7 @@ func (fr *Frame) applyDefault(site ssa.Instruction, key string, c *ssa.CallCommo
 		var res []T
 		for i := 0; i < sig.Results().Len(); i++ {
 			rt := sig.Results().At(i).Type()
-			r := ex.freshOfType(fmt.Sprintf("f%d_%s_r%d", fr.id, sanitize(fr.callName[site]), i), rt, tTrue, nil)
+			r := ex.freshOfType(fmt.Sprintf("f%d_%s_%d_r%d", fr.id, sanitize(fr.callName[site]), fr.callOrd[site], i), rt, tTrue, nil)
 			fr.markAllocated(r, rt, reach, st)
 			res = append(res, r)
 		}
